@@ -6,6 +6,17 @@ COMMON_NOTE = ('Trusted: Coq 8.16.1 kernel + VM (vm_compute, no native_compute),
                'CPython/pydicom as the execution substrate of the implementation.')
 
 CHECKS = {
+    'C06': dict(
+        text=('Theorem C06_fragmentation (Coq, no axioms): for ALL command-set bytes, data-set bytes, context ids and '
+              'every maximum PDU length m >= 7 (unbounded, 2^32-1 included) the model of chunks/fragment/'
+              'DIMSEMessage.encode yields command fragments then data fragments, each non-empty, within m, on the '
+              'message context, flagged 1..1 3 / 0..0 2 with exactly one last fragment per stream, concatenating '
+              'byte-exactly to the inputs; C06_file_equals_bytes: the file variant equals the bytes variant. '
+              'The model is tied to the code on every run by correspondence obligations (model = observed fragments '
+              'of the real Association.send, kernel-checked by vm_compute) plus the property oracle on the observation.'),
+        technique='Coq proof by induction over the chunk list + model/implementation correspondence by vm_compute',
+        design_ref='DESIGN.md section 6, C06',
+        note=COMMON_NOTE + ' Command-set bytes are taken from the implementation (pydicom) and are a parameter of the theorem.'),
     'C18': dict(
         text=('Proof over the complete behaviour of the code: statuses.Status is tabulated on all 65536 codes x '
               '24 classes from the working tree on every run; Coq checks every cell against the independent spec '
